@@ -92,6 +92,7 @@ func H13_Algorithms() {
 	}
 	c.routing.NotifyNewBundle(bp)
 	chosen := map[bpv7.EndpointID]int{}
+	dstCLA := newMockCLA("far", &log) // a sender to the bundle's destination node, not (or no longer) registered
 	rounds := verif.Size("rounds", 1, 3)
 	for r := 0; r < rounds; r++ {
 		css, _ := c.routing.SenderForBundle(bp)
@@ -116,6 +117,17 @@ func H13_Algorithms() {
 			}
 			if algo != "binary_spray" && algo != "spray" {
 				verif.Assert(ok, "a transmission reported as failed makes exactly that peer eligible again")
+			}
+		}
+		// a failed direct delivery: Core.forward also reports failures of senders the algorithm never chose (the
+		// destination node was connected and bypassed the algorithm); that makes nobody else eligible again
+		if algo != "dtlsr" && verif.Bool(nm("dfail", r)) {
+			c.routing.ReportFailure(bp, dstCLA)
+			again, _ := c.routing.SenderForBundle(bp)
+			for _, cs := range again {
+				e := cs.GetPeerEndpointID()
+				verif.Assert(e != peers[0].peer && chosen[e] == 0, "a failure reported for one peer makes no other peer eligible again")
+				chosen[e]++
 			}
 		}
 		if verif.Bool(nm("restart", r)) && (algo == "epidemic" || algo == "prophet" || algo == "dtlsr") {
